@@ -1,0 +1,157 @@
+//go:build verif
+
+package gbn
+
+import (
+	"sort"
+	"time"
+)
+
+// This file is only compiled with the "verif" build tag. It gives the
+// external verification harness read access to internal state and lets it
+// construct the internal components on their own. It adds no behaviour to
+// regular builds.
+
+// VerifSnap is a read-only copy of the connection's protocol state. It is
+// taken without locks and must only be used while no goroutine of the
+// connection is running.
+type VerifSnap struct {
+	RecvSeq      uint8
+	N, S         uint8
+	QueueS       uint8
+	Base, Top    uint8
+	Size         uint8
+	SyncState    uint8
+	ExpectedACK  uint8
+	ExpectedNACK uint8
+	Started      bool
+	QuitClosed   bool
+	RemoteClosed bool
+	RecvChanLen  int
+	RecvChanCap  int
+}
+
+// VerifSnapshot returns the current protocol state.
+func (g *GoBackNConn) VerifSnapshot() VerifSnap {
+	q := g.sendQueue
+	s := VerifSnap{
+		RecvSeq:      g.recvSeq,
+		N:            g.cfg.n,
+		S:            g.cfg.s,
+		QueueS:       q.cfg.s,
+		Base:         q.sequenceBase,
+		Top:          q.sequenceTop,
+		SyncState:    uint8(q.syncer.state),
+		ExpectedACK:  q.syncer.expectedACK,
+		ExpectedNACK: q.syncer.expectedNACK,
+		Started:      g.resendTicker != nil,
+		RecvChanLen:  len(g.recvDataChan),
+		RecvChanCap:  cap(g.recvDataChan),
+	}
+	if s.Top >= s.Base {
+		s.Size = s.Top - s.Base
+	} else {
+		s.Size = s.Top + (s.QueueS - s.Base)
+	}
+	select {
+	case <-g.quit:
+		s.QuitClosed = true
+	default:
+	}
+	select {
+	case <-g.remoteClosed:
+		s.RemoteClosed = true
+	default:
+	}
+
+	return s
+}
+
+// VerifTimeoutManager returns the connection's timeout manager.
+func (g *GoBackNConn) VerifTimeoutManager() *TimeoutManager {
+	return g.timeoutManager
+}
+
+// VerifQueue wraps the internal send queue.
+type VerifQueue struct {
+	q *queue
+}
+
+// VerifNewQueue builds a stand-alone queue with sequence space s.
+func VerifNewQueue(s uint8, tm *TimeoutManager,
+	sendPkt func(packet *PacketData) error) *VerifQueue {
+
+	return &VerifQueue{q: newQueue(&queueCfg{s: s, sendPkt: sendPkt}, tm)}
+}
+
+func (v *VerifQueue) AddPacket(p *PacketData)   { v.q.addPacket(p) }
+func (v *VerifQueue) ProcessACK(seq uint8) bool { return v.q.processACK(seq) }
+func (v *VerifQueue) Size() uint8               { return v.q.size() }
+func (v *VerifQueue) Base() uint8               { return v.q.sequenceBase }
+func (v *VerifQueue) Top() uint8                { return v.q.sequenceTop }
+func (v *VerifQueue) Resend() error             { return v.q.resend() }
+func (v *VerifQueue) Stop()                     { v.q.stop() }
+func (v *VerifQueue) SyncState() uint8          { return uint8(v.q.syncer.state) }
+func (v *VerifQueue) Expected() (uint8, uint8) {
+	return v.q.syncer.expectedACK, v.q.syncer.expectedNACK
+}
+func (v *VerifQueue) Content(seq uint8) *PacketData { return v.q.content[seq] }
+
+func (v *VerifQueue) ProcessNACK(seq uint8) (bool, bool) {
+	return v.q.processNACK(seq)
+}
+
+// VerifSetWindow places the window of an otherwise fresh queue at
+// [base, top) without going through addPacket/processACK.
+func (v *VerifQueue) VerifSetWindow(base, top uint8) {
+	v.q.sequenceBase = base
+	v.q.sequenceTop = top
+}
+
+// VerifContainsSequence exposes containsSequence.
+func VerifContainsSequence(base, top, seq uint8) bool {
+	return containsSequence(base, top, seq)
+}
+
+// VerifTMState is the internal state of a TimeoutManager.
+type VerifTMState struct {
+	Static              bool
+	HasSetDynamic       bool
+	ResendTimeout       time.Duration
+	ResendOriginal      time.Duration
+	ResendBoostCount    int
+	ResendLastBoost     time.Time
+	HandshakeOriginal   time.Duration
+	HandshakeBoostCount int
+	LatestSentSYN       time.Time
+	ResponseCounter     int
+	SentSeqs            []uint8
+	SentTimes           []time.Time
+}
+
+// VerifState returns the manager's internal state (no locks taken).
+func (m *TimeoutManager) VerifState() VerifTMState {
+	s := VerifTMState{
+		Static:              m.useStaticTimeout,
+		HasSetDynamic:       m.hasSetDynamicTimeout,
+		ResendTimeout:       m.resendTimeout,
+		ResendOriginal:      m.resendBooster.originalTimeout,
+		ResendBoostCount:    m.resendBooster.boostCount,
+		ResendLastBoost:     m.resendBooster.lastBoost,
+		HandshakeOriginal:   m.handshakeBooster.originalTimeout,
+		HandshakeBoostCount: m.handshakeBooster.boostCount,
+		LatestSentSYN:       m.latestSentSYNTime,
+		ResponseCounter:     m.responseCounter,
+	}
+	for seq := range m.sentTimes {
+		s.SentSeqs = append(s.SentSeqs, seq)
+	}
+	sort.Slice(s.SentSeqs, func(i, j int) bool {
+		return s.SentSeqs[i] < s.SentSeqs[j]
+	})
+	for _, seq := range s.SentSeqs {
+		s.SentTimes = append(s.SentTimes, m.sentTimes[seq])
+	}
+
+	return s
+}
